@@ -99,6 +99,53 @@ fn oracle_step(s: &[char], e: &Edit) -> Vec<char> {
     }
 }
 
+// ---------- the client's own RAW text (line endings LF, CR or CRLF kept as typed) ----------
+/// offset of (line, character) in a raw string: a line ends at LF, at CRLF (one terminator) or at a
+/// CR that is not followed by LF; same clamping rules as `offset`.
+fn raw_offset(r: &[char], line: u32, character: u32) -> usize {
+    let mut cur_line = 0u32;
+    let mut i = 0usize;
+    while cur_line < line {
+        let mut j = i;
+        while j < r.len() && r[j] != '\n' && r[j] != '\r' {
+            j += 1;
+        }
+        if j >= r.len() {
+            return r.len();
+        }
+        i = if r[j] == '\r' && j + 1 < r.len() && r[j + 1] == '\n' { j + 2 } else { j + 1 };
+        cur_line += 1;
+    }
+    let mut col = 0u64;
+    while i < r.len() && r[i] != '\n' && r[i] != '\r' && col < character as u64 {
+        col += r[i].len_utf16() as u64;
+        i += 1;
+    }
+    i
+}
+
+/// One step of the raw client; the bool says whether a CR/LF fusion corner occurred (theorem
+/// C10_raw_step's side condition `no_cr_lf_fusion` is violated): there the client's and the
+/// normalising server's line structures may legitimately differ.
+fn raw_step(r: &[char], e: &Edit) -> (Vec<char>, bool) {
+    match e {
+        Edit::Full(t) => (t.clone(), false),
+        Edit::Ranged(l1, c1, l2, c2, t) => {
+            let a = raw_offset(r, *l1, *c1);
+            let b = std::cmp::max(a, raw_offset(r, *l2, *c2));
+            let prefix = &r[..a];
+            let suffix = &r[b..];
+            let next_after_prefix = t.first().or(suffix.first());
+            let fuse_client = prefix.last() == Some(&'\r') && next_after_prefix == Some(&'\n');
+            let fuse_server = t.last() == Some(&'\r') && suffix.first() == Some(&'\r');
+            let mut out: Vec<char> = prefix.to_vec();
+            out.extend_from_slice(t);
+            out.extend_from_slice(suffix);
+            (out, fuse_client || fuse_server)
+        }
+    }
+}
+
 fn oracle_end(s: &[char]) -> (u32, u32) {
     // Contents::end: last line index, utf16 length of the last stored line (terminator included)
     if s.is_empty() {
@@ -136,6 +183,9 @@ fn run_case(doc: &[char], edits: &[Edit]) -> String {
     let mut oracle = String::new();
     let mut flags = String::new();
     let mut s = normalize(doc);
+    let mut raw: Vec<char> = doc.to_vec();
+    let mut fused = false;
+    let mut rawcol = String::new();
     let mut dead = false;
     for e in edits {
         if !dead {
@@ -155,6 +205,18 @@ fn run_case(doc: &[char], edits: &[Edit]) -> String {
             }
         }
         s = oracle_step(&s, e);
+        let inverted = matches!(e, Edit::Ranged(l1, c1, l2, c2, _) if (*l2, *c2) < (*l1, *c1));
+        let (nraw, f) = raw_step(&raw, e);
+        raw = nraw;
+        fused = fused || f || inverted;
+        // per step: `-` once a fusion corner (or an inverted range) has occurred, else the
+        // normalisation of the client's raw text
+        if fused {
+            rawcol.push_str("-;");
+        } else {
+            rawcol.push_str(&cps(&normalize(&raw)));
+            rawcol.push(';');
+        }
         if dead {
             states.push_str("PANIC;");
         } else {
@@ -168,7 +230,7 @@ fn run_case(doc: &[char], edits: &[Edit]) -> String {
         oracle.push_str(&cps(&s));
         oracle.push(';');
     }
-    format!("{}|{}|{}", states, oracle, flags)
+    format!("{}|{}|{}|{}", states, oracle, flags, rawcol)
 }
 
 // ---------- generators ----------
